@@ -4,7 +4,7 @@
    Statement language (impl_lookup, spec_lookup, ...): Image/ViewEq.v.  Witness images: Image/Witnesses.v. *)
 From Coq Require Import List NArith ZArith Bool String.
 From Scalibr Require Import Lib.SortSearch Image.PathTree Image.PathTreeProofs Image.Fill Image.Overlay
-  Image.ImageCases Image.ViewEq Image.Witnesses Image.FillProofs Image.FoldProofs Image.Bounded Image.BoundedProofs Image.DomainP Image.ViewProofs Image.PruneProofs Image.ListingProofs Image.ContentProofs.
+  Image.ImageCases Image.ViewEq Image.Witnesses Image.FillProofs Image.FoldProofs Image.Bounded Image.BoundedProofs Image.DomainP Image.ViewProofs Image.PruneProofs Image.ListingProofs Image.ContentProofs Image.RequirerProofs.
 Import ListNotations.
 Open Scope Z_scope.
 
@@ -59,8 +59,8 @@ Print Assumptions pathtree_refines_map.
    view_eq_overlay_on_Dp_unpruned, view_eq_overlay_on_Dp, and in EVERY view with the default requirer:
    view_eq_overlay_on_Dp_all_views (below); ReadDir listings: view_listing_eq_overlay_on_Dp(_unpruned);
    content of regular files before pruning: view_content_eq_overlay_on_Dp_unpruned_partial.  Still open
-   on Dp: the last view under a path requirer (requirer_only_removes_nonrequired), WalkDir equality, content
-   after pruning; open beyond Dp: link resolution, the last view of images with links, implicit parents (D_weak).  Also proved:
+   on Dp: which directories vanish from the last view under a path requirer (non-directories are settled:
+   requirer_only_removes_nonrequired_on_Dp), WalkDir equality, content after pruning; open beyond Dp: link resolution, the last view of images with links, implicit parents (D_weak).  Also proved:
      - view_eq_overlay_on_D_bounded_partial: the statement (lookups on the paths a, b, a/a, a/b, a/a/a,
        a/c, c and listings of the root and of every directory among them) for EVERY image of the two
        small-scope families of Bounded.v (273 x 273 two-layer images with <= 2 members per layer;
@@ -176,6 +176,37 @@ Theorem view_content_eq_overlay_on_Dp_unpruned_partial : forall cfg im st,
     spec_content cfg im i p = Some c -> impl_content st i p = Some c.
 Proof. exact view_content_eq_overlay_on_Dp_unpruned_lemma. Qed.
 Print Assumptions view_content_eq_overlay_on_Dp_unpruned_partial.
+
+(* (3) REQUIRER.  The last view under ANY requirer (FileRequirerAll or FileRequirerPaths), images without links:
+   a non-directory entry of the overlay is present, unchanged, iff the requirer accepts its path (as "/a/b" or
+   "a/b"); nothing the overlay does not have appears; a directory is either unchanged or gone (pathtree.Remove
+   prunes a directory that lost its last entry -- which directories vanish is not characterised here; with the
+   default requirer and prune_safe_p none does: final_prune_only_whiteouts_on_Dp).  The earlier views are
+   unchanged under every requirer (view_eq_overlay_on_Dp); what a requirer does to their CONTENT is the known
+   finding requirer-deletes-content-of-earlier-views (refuted above). *)
+Theorem requirer_only_removes_nonrequired_on_Dp : forall cfg im st,
+  Dp cfg im = true -> no_links_p im = true -> load cfg im = Some st -> (0 < List.length (init_slots im))%nat ->
+  let i := (List.length (init_slots im) - 1)%nat in
+  forall p, p <> [] ->
+    (impl_lookup st i p = spec_lookup cfg im i p \/ impl_lookup st i p = None) /\
+    (forall v, spec_lookup cfg im i p = Some v -> ve_kind v <> SKDir ->
+       impl_lookup st i p = if path_required cfg (walk_path_string p) then Some v else None).
+Proof. exact requirer_only_removes_nonrequired_on_Dp_lemma. Qed.
+Print Assumptions requirer_only_removes_nonrequired_on_Dp.
+
+(* (2') the last view of images WITH links, any requirer -- PARTIAL: values only disappear, and a non-directory
+   entry of the overlay that the requirer accepts (every one under the default requirer) is there unchanged.
+   Missing: that no directory vanishes (needs the exact-cut argument of final_prune_only_whiteouts_on_Dp with
+   marked link targets), and which non-accepted entries a link chain keeps. *)
+Theorem last_view_with_links_on_Dp_partial : forall cfg im st,
+  Dp cfg im = true -> load cfg im = Some st -> (0 < List.length (init_slots im))%nat ->
+  let i := (List.length (init_slots im) - 1)%nat in
+  forall p, p <> [] ->
+    (impl_lookup st i p = spec_lookup cfg im i p \/ impl_lookup st i p = None) /\
+    (forall v, spec_lookup cfg im i p = Some v -> ve_kind v <> SKDir ->
+       path_required cfg (walk_path_string p) = true -> impl_lookup st i p = Some v).
+Proof. exact last_view_with_links_on_Dp_partial_lemma. Qed.
+Print Assumptions last_view_with_links_on_Dp_partial.
 
 Example good_image_in_Dc : Dc w_good_p = true.
 Proof. vm_compute. reflexivity. Qed.
